@@ -171,7 +171,8 @@ def codec_dispatch(ctx, repo):
             ("the None sentinel (str)", dict(types={"str"}, text=none_s[1]), lambda t: t == T.NONE, "None"),
             ("the empty-dict sentinel (str)", dict(types={"str"}, text=empty_s[1]), lambda t: t == ("d", ()), "{}"),
             ("any other str", dict(types={"str"}, text="\0"), raw, "itself"),
-            ("an ndarray", dict(types={"ndarray"}), raw, "itself (0-d arrays as scalars, string arrays as lists)"),
+            ("an ndarray", dict(types={"ndarray"}), lambda t: all(l == W or (any(x == W for x in T.subterms(l)) and all(x == W for x in T.subterms(l) if x and x[0] == "a"))
+                                                                     for l in T.phi_leaves(t)), "itself (0-d arrays as scalars, string arrays as lists)"),
             ("a list", dict(types={"list"}), lambda t: comp_of(t, "listcomp", "decode_from_hdf5", W), "the list of its decoded items"),
             ("a tuple", dict(types={"tuple"}), lambda t: is_call(t, "tuple") and comp_of(t[2][0], "listcomp", "decode_from_hdf5", W), "the tuple of its decoded items"),
             ("a set", dict(types={"set"}), lambda t: comp_of(t, "setcomp", "decode_from_hdf5", W), "the set of its decoded items"),
@@ -401,6 +402,29 @@ def default_path_rule(ctx, repo):
     ctx.floor("history classes with a save/load pair", n, 3)
 
 
+def utf8_rule(ctx, repo):
+    """C13.codec (utf-8 clause): the writer stores string sequences with h5py.string_dtype(encoding="utf-8"); h5py hands them back as an object array of UTF-8
+    *bytes*.  Frozen API fact: ndarray.astype(str) decodes bytes as ASCII and raises UnicodeDecodeError for anything else -- a reader that converts the array
+    with astype(str) alone (and falls back to the raw array on error) returns bytes for non-ASCII names, so parameter names such as "α" do not survive a reload."""
+    try:
+        dec = repo.func("aspire.utils:decode_from_hdf5")
+    except Exception:  # noqa: BLE001
+        dec = None
+    if dec is None:
+        ctx.unknown("C13.codec", "aspire.utils:decode_from_hdf5", "src/aspire/utils.py", "decoder not found", disc="utf-8")
+        return
+    branches = [n_ for n_ in walk_no_nested(dec.node) if isinstance(n_, ast.If) and any(isinstance(x_, ast.Attribute) and x_.attr == "kind" for x_ in ast.walk(n_.test))]
+    if not branches:
+        ctx.unknown("C13.codec", dec.ident, loc_of(dec), "the string-array branch of the decoder (a test of dtype.kind) was not found", disc="utf-8")
+        return
+    br = branches[0]
+    explicit = any(isinstance(x_, ast.Call) and isinstance(x_.func, ast.Attribute) and x_.func.attr == "decode" and any(
+        isinstance(a_, ast.Constant) and str(a_.value).lower().replace("-", "") == "utf8" for a_ in list(x_.args) + [k_.value for k_ in x_.keywords]) for b_ in br.body for x_ in ast.walk(b_))
+    ctx.decide(explicit, "C13.codec", dec.ident, loc_of(dec, br), "string arrays read from the file are decoded as UTF-8, the encoding the writer uses",
+               "the string-array branch converts with astype(str) only: h5py returns the stored strings as UTF-8 bytes and astype(str) decodes bytes as ASCII, so a sequence with a non-ASCII "
+               "string (parameter names such as 'α') raises inside the branch, the fallback returns the raw bytes, and the reloaded object has other names than the saved one", disc="utf-8")
+
+
 def optional_key_rule(ctx, repo):
     """C13.flow (optional-key clause): a loader does not *require* a stored option the constructor treats as optional.  A key that __init__ takes with
     `pop(k, default)` / `get(k)` may be absent from the saved constructor arguments; a loader that does `pop(k)` or `[k]` on them raises KeyError for every
@@ -519,6 +543,7 @@ def run(ctx):
     dataset_options_rule(ctx, repo)
     saved_dtype_rule(ctx, repo)
     optional_key_rule(ctx, repo)
+    utf8_rule(ctx, repo)
     default_path_rule(ctx, repo)
     empty_sequence_rule(ctx, repo)
     # ---- what a file holds under /aspire_config is one configuration: the writer removes the group before it writes (the layout is flattened,
@@ -984,6 +1009,10 @@ MUTANTS += [
 
 MUTANTS += [
     M("jax loader requires the optional device argument", "src/aspire/flows/jax/flows.py", "kwargs.pop(\"device\", None)\n        flow_template", "kwargs.pop(\"device\")\n        flow_template", "C13.flow"),
+]
+
+MUTANTS += [
+    M("decoder converts string arrays with astype(str) only (ASCII)", _U, "decoded = np.array(\n                    [\n                        v.decode(\"utf-8\") if isinstance(v, bytes) else v\n                        for v in value.ravel().tolist()\n                    ],\n                    dtype=object,\n                ).reshape(value.shape)\n                return decoded.astype(str).tolist()", "return value.astype(str).tolist()", "C13.codec"),
 ]
 
 NEUTRALS = [
